@@ -124,7 +124,9 @@ def run(ctx):
                 idx = drv.add(dict(params_json(before), op="setparams", set=[[k2, enc(v2)] for k2, v2 in vals.items()]))
                 pending.append(("setparams", idx, params_json(a2.get_params()), case))
         # --- unknown keys
-        for bad in (gen.fresh_names(ctx.rng, 1)[0] + "_zz", "max_dt", "Config", "process_noises"):
+        for bad in (gen.fresh_names(ctx.rng, 1)[0] + "_zz", "max_dt", "Config", "process_noises",
+                    # nested-looking spellings of names that are NOT fields of the configuration
+                    "config__process_noise", "config__sensor_noises", "config__config", "config__calibration_map", "config__symbolic_model"):
             a2 = copy.copy(ad)
             case = dict(desc, op="set-unknown", key=bad)
             ctx.case(case, True); ctx.count("op=set-unknown")
@@ -152,9 +154,13 @@ def run(ctx):
                 vec = [ctx.rng.choice([F(1, 8), F(3, 2), F(-1, 4), F(1, 10 ** 9), F(0), F(7, 4)]) * ctx.rng.choice([1, 2]) for _ in flat]
                 a4 = copy.deepcopy(ad)
                 old = noises_json(a4.process_noise, a4.sensor_noises)
-                got = a4._inverse_flatten_scoring_params([float(x) for x in vec])
                 case = dict(desc, op="inverse", vector=[core.frac_str(x) for x in vec])
                 ctx.case(case, nz >= 2); ctx.count("op=inverse")
+                try:
+                    got = a4._inverse_flatten_scoring_params([float(x) for x in vec])
+                except Exception as e:
+                    ctx.fail(f"inverse-raises:{fk.exc_kind(e)}", f"re-assembling the noise maps from a vector of the flattened length raises {e!r}"[:300], case)
+                    break
                 idx = drv.add({"op": "inverse", "controls": Lc, "noises": old, "vector": [core.frac_str(x) for x in vec]})
                 pending.append(("inverse", idx, noises_json(got["process_noise"], got["sensor_noises"]), case))
                 # the property's clauses on the result
